@@ -161,6 +161,8 @@ def run(ctx):
         # options are cut to the declared outputs
         if ok and outs and task is not None:
             extra = set((sc["ops"][i][4] or {}).keys()) - set(outs)
+            # what the action itself reads (code and message of an error, target of a back) is a parameter of the action, not a data option
+            extra -= {"error": {"ecode", "message"}, "back": {"to"}}.get(ev, set())
             d_after = dumps_of(obs).get(sc["ops"][i][2]) or {}
             for t in d_after.get("tasks", []):
                 if t["tid"] == task["tid"]:
